@@ -22,6 +22,9 @@ SPEC = {
         {"name": "putorder", "pkg": "./putorder", "timeout_quick": 120, "search_cases": 600},
         # the provider itself must hold the most recently submitted version, also when two submissions carry the same receive time (C13's engine)
         {"name": "ingest", "pkg": "./ingest", "search_cases": 8000, "quick_cases": 1500, "only": ["putValue_identity"]},
+        # "every aggregation group holding that alert holds the most recently submitted version": no orphaned live group may keep
+        # a superseded version notifying (C06's scheduled engine: maintenance racing the re-creation of a group)
+        {"name": "groupsched", "pkg": "./groupsched", "search_cases": 3000, "quick_cases": 600, "only": ["no_orphan_live_group", "insert_lands"]},
     ],
     "rule": "real mem.Alerts provider + dispatch.Dispatcher under synctest; the dispatcher's debug log line 'Received alert' "
             "(emitted by the ingestion worker between channel receive and group insert) is used as a yield point through a "
